@@ -946,7 +946,7 @@ class _Generator(Generator):
             'i')
 
         if checker.minimum == checker.maximum:
-            unique_length = self.add_unique_decode_variable('uint8_t {};',
+            unique_length = self.add_unique_decode_variable('uint32_t {};',
                                                             'length')
 
         with self.c_members_backtrace_push('elements[{}]'.format(unique_i)):
@@ -974,11 +974,11 @@ class _Generator(Generator):
             decode_lines = [
                 '{} = decoder_read_uint8(decoder_p);'.format(
                     unique_number_of_length_bytes),
-                '{} = decoder_read_uint8(decoder_p);'.format(unique_length),
+                '{} = decoder_read_uint(decoder_p, {});'.format(
+                    unique_length,
+                    unique_number_of_length_bytes),
                 '',
-                'if (({} != 1u) || ({} > {}u)) {{'.format(unique_number_of_length_bytes,
-                                                          unique_length,
-                                                          checker.maximum),
+                'if ({} != {}u) {{'.format(unique_length, checker.maximum),
                 '    decoder_abort(decoder_p, EBADLENGTH);',
                 '',
                 '    return;',
